@@ -41,6 +41,9 @@ def main():
         if meta["breaks_property"] not in props:
             props.insert(0, meta["breaks_property"])
         res = {}
+        if os.environ.get("OWN_ONLY"):  # quick re-check of the change's own property; other columns keep their last result
+            res = dict((meta.get("last_sweep") or {}).get("results") or {})
+            props = [meta["breaks_property"]]
         for p in props:
             t0 = time.time()
             o = "/tmp/seeded_sweep/%s" % sid
